@@ -342,13 +342,9 @@ pub fn item_roles(it: &BodyItem) -> Roles {
          }
          for a in args {
             if let Arg::Expr(e) = a {
-               let mut v = BTreeSet::new();
-               expr_vars(e, &mut v);
-               for x in v {
-                  if !r.soft.contains(&x) {
-                     r.needs.insert(x);
-                  }
-               }
+               // an argument expression is evaluated before the clause binds anything: its variables must be bound
+               // by earlier items even when the same clause also mentions them as plain arguments
+               expr_vars(e, &mut r.needs);
             }
          }
          let empty = BTreeSet::new();
